@@ -456,7 +456,7 @@ fn nap_fileop(op: u8, offset: u64, size: u64, expansion: u16, path: &str, payloa
 fn nap_file_block(data: &[u8]) -> Vec<u8> { let mut b = vec![]; b.extend_from_slice(&16u32.to_le_bytes()); b.extend_from_slice(&0u32.to_le_bytes()); b.extend_from_slice(&32000i32.to_le_bytes()); b.extend_from_slice(&(data.len() as i32).to_le_bytes()); b.extend_from_slice(data); while b.len() % 128 != 0 { b.push(0); } b }
 fn nap_empty_block(blocks: u32) -> Vec<u8> { let mut v = vec![0u8; (blocks as usize) << 7]; v[0..4].copy_from_slice(&128i32.to_le_bytes()); v[12..16].copy_from_slice(&((blocks - 1) as i32).to_le_bytes()); v }
 
-//@unit props=C03 label=B tier=quick native=1 fn=patch::ZiPatch::apply bound="by execution on temporary directories: 3 hand-built patches (15, 6 and 9 chunks, the last one switching the target platform twice: FHDR-less header, T, X, I, A, D, E, H(dat version / dat data / index), F(A at offset 0, at an offset past the end and at an offset inside a longer file, multi-block, D, M, R), APLY, ADIR, DELD, EOF) applied one after another to a tree with 4 pre-existing files, for the win32 and ps4 target platforms"
+//@unit props=C03 label=B tier=quick native=1 fn=patch::ZiPatch::apply bound="by execution on temporary directories: 3 hand-built patches (16, 7 and 9 chunks, the last one switching the target platform twice: FHDR-less header, T, X, I, A, D, E, H(dat version / dat data / index), F(A at offset 0, at an offset past the end and at an offset inside a longer file, multi-block, D, M, R), APLY, ADIR, DELD, EOF) applied one after another to a tree with 4 pre-existing files, for the win32 and ps4 target platforms"
 //@desc after applying, the tree is what the reference semantics give: block writes at 128 x the block offset of the dat file named by category, expansion, chunk, file number and target platform, followed by the wipe; delete/expand write an empty-block header of the given block count over zeroed blocks; header updates overwrite the first (version) or second (index/data) KiB; file operations create, overwrite at an offset, truncate, delete and make directories; untouched files keep their bytes; every apply reports success; applying the patches in sequence accumulates their effects
 #[test]
 fn native_zipatch_apply_semantics() {
@@ -485,6 +485,8 @@ fn native_zipatch_apply_semantics() {
         p1.push(nap_sqpk(b'X', &{ let mut c = vec![0u8, 0, 0]; c.extend_from_slice(&0u64.to_be_bytes()); c }));
         p1.push(nap_add(0x0a, 0x0000, 0, 2, &d256, 1)); { let f = model.get_mut(&dat0).unwrap(); write_at(f, 256, &d256); write_at(f, 512, &[0u8; 128]); }
         p1.push(nap_del_exp(b'D', 0x0a, 0x0000, 0, 8, 3)); { let f = model.get_mut(&dat0).unwrap(); write_at(f, 1024, &nap_empty_block(3)); }
+        // an empty-block range that starts inside the existing file (non-zero bytes there) and runs past its end: every byte of it is zeroed
+        p1.push(nap_del_exp(b'D', 0x0a, 0x0000, 0, 30, 4)); { let f = model.get_mut(&dat0).unwrap(); assert!(f.len() == 4096 && f[3900] != 0); write_at(f, 3840, &nap_empty_block(4)); }
         p1.push(nap_del_exp(b'E', 0x0a, 0x0000, 1, 0, 2)); { let f = model.entry(dat1.clone()).or_default(); write_at(f, 0, &nap_empty_block(2)); }
         p1.push(nap_add(0x02, 0x0101, 3, 16, &d128, 0)); { let f = model.entry(exdat.clone()).or_default(); write_at(f, 2048, &d128); }
         p1.push(nap_header(b'D', b'V', 0x02, 0x0101, 3, &h1)); { let f = model.get_mut(&exdat).unwrap(); write_at(f, 0, &h1); }
